@@ -36,27 +36,23 @@ void EventPublisherImpl::subscribe(EventSubscriber *subscriber) {
 }
 
 void EventPublisherImpl::unsubscribe(EventSubscriber *subscriber) {
-  {
-    auto iter_end = subscriber_vec_.end();
-    auto iter = std::remove(subscriber_vec_.begin(), iter_end, subscriber);
-    subscriber_vec_.erase(iter, iter_end);
-  }
-  {
-    auto iter_end = tmp_vec_.end();
-    auto iter = std::remove(tmp_vec_.begin(), iter_end, subscriber);
-    tmp_vec_.erase(iter, iter_end);
-  }
+  auto iter_end = subscriber_vec_.end();
+  auto iter = std::remove(subscriber_vec_.begin(), iter_end, subscriber);
+  subscriber_vec_.erase(iter, iter_end);
 }
 
 void EventPublisherImpl::publish(Event event) {
-  auto tmp_vec_ = subscriber_vec_;
-  while (!tmp_vec_.empty()) {
-    auto top_subscriber = tmp_vec_.back();
+  //! 在副本上遍历：onEvent() 里可以再 subscribe(), unsubscribe(), publish()
+  auto pending_vec = subscriber_vec_;
+  while (!pending_vec.empty()) {
+    auto top_subscriber = pending_vec.back();
+    pending_vec.pop_back();
+    //! 本次 publish() 期间已被 unsubscribe() 的订阅者不能再通知，它可能已经被析构了
+    if (std::find(subscriber_vec_.begin(), subscriber_vec_.end(), top_subscriber) == subscriber_vec_.end())
+      continue;
     if (top_subscriber->onEvent(event))
       break;
-    tmp_vec_.pop_back();
   }
-  tmp_vec_.clear();
 }
 
 }
